@@ -83,9 +83,13 @@ structure Given where
   value : OVal               -- the value it parsed to (last occurrence / accumulated list)
   deriving Repr
 
+/-- does a given flag of this command target the field? -/
+def flagFor (cmd : CliCmd) (given : List Given) (path : List String) : Option CliFlag :=
+  cmd.flags.find? (fun f => f.path = path ∧ given.any (·.flag = f.name))
+
 /-- the struct before the config is applied: flag values where given, zero otherwise -/
 def initial (cmd : CliCmd) (given : List Given) (field : List String × String) : OVal :=
-  match cmd.flags.find? (fun f => f.path = field.1 ∧ given.any (·.flag = f.name)) with
+  match flagFor cmd given field.1 with
   | some f => ((given.find? (·.flag = f.name)).map (·.value)).getD (zeroOf field.2)
   | none => zeroOf field.2
 
@@ -124,13 +128,21 @@ def statedValue (cmd : CliCmd) (cfg : List (String × CVal)) (path : List String
   configValue (sectionOf cfg (cmd.sect.splitOn ".")) path
 
 def specValue (intToFlt : Int → Nat) (cmd : CliCmd) (given : List Given) (cfg : List (String × CVal))
-    (field : List String × String) : Option OVal :=
-  match cmd.flags.find? (fun f => f.path = field.1 ∧ given.any (·.flag = f.name)) with
-  | some f => (given.find? (·.flag = f.name)).map (·.value)
+    (field : List String × String) : Outcome (List String × OVal) :=
+  match flagFor cmd given field.1 with
+  | some f => .ok (field.1, ((given.find? (·.flag = f.name)).map (·.value)).getD (zeroOf field.2))
   | none =>
     match statedValue cmd cfg field.1 with
-    | some (.leaf v) => convertTo field.2 intToFlt v
-    | some (.table _) => none
-    | none => some (zeroOf field.2)
+    | some (.leaf v) =>
+      (match convertTo field.2 intToFlt v with
+       | some v' => .ok (field.1, v')
+       | none => .err .config)
+    | some (.table _) => .err .config
+    | none => .ok (field.1, zeroOf field.2)
+
+/-- the whole specification: every option field, in order -/
+def specAll (intToFlt : Int → Nat) (cmd : CliCmd) (given : List Given) (cfg : List (String × CVal)) :
+    Outcome (List (List String × OVal)) :=
+  cmd.fields.mapM (specValue intToFlt cmd given cfg)
 
 end TrackVerif.CLI
